@@ -1185,7 +1185,7 @@ class SQLParser:
         scanner.match("LATERAL", "VIEW")
         outer = scanner.search_and_move_one_type_str_use_upper("OUTER")
         function = cls._parse_function_expression(scanner, sql_type=sql_type)
-        view_name = scanner.pop_as_source()
+        view_name = cls._unify_name(scanner.pop_as_source())
         alias = cls._parse_multi_alias_expression(scanner)
         return node.ASTLateralViewClause(outer=outer, function=function, view_name=view_name, alias=alias)
 
